@@ -1083,8 +1083,8 @@ def population_kind(o):
         return "update"
     if d.get("_delete_from"):
         return "delete"
-    if d.get("_returns"):
-        return None  # returning() on a SELECT (the PostgreSQL builder allows the call): no order table applies
+    if d.get("_returns") or d.get("_on_conflict"):
+        return None  # returning() / on_conflict() on what renders as a SELECT: no order table applies
     return "select"
 
 
@@ -1281,7 +1281,9 @@ def population_run(seed, run, rng):
                 continue  # the argument is not part of the parent's text as a bracketed sub-query (dropped, or the
                 #           parent merely begins like it because it was derived from the same receiver)
             res["stats"]["subquery_embeddings_compared"] += 1
-            if cls == "SQLLiteQuery" and j in getattr(g_parents, "idx", ()) and sqlite_parse_error(inner) is None:
+            if cls == "SQLLiteQuery" and j in getattr(g_parents, "idx", ()) and sqlite_parse_error(inner) is None \
+                    and not sqllex.predicate_juxtapositions(inner, '"', False):
+                # (a SELECT that already shows the known alias-in-predicate family is not judged again here)
                 # SQLite accepts the SELECT on its own, and the parent around it is a plain template: it must accept both
                 res["stats"]["sqlite_nested_prepared"] += 1
                 err = sqlite_parse_error(outer)
@@ -1316,7 +1318,7 @@ def population_run(seed, run, rng):
             inner = S.get_sql(ctx.copy(with_alias=False, subquery=False))
         except Exception:  # noqa: BLE001
             continue
-        if not outer or not inner or sqlite_parse_error(inner) is not None:
+        if not outer or not inner or sqlite_parse_error(inner) is not None or sqllex.predicate_juxtapositions(inner, '"', False):
             continue
         res["stats"]["sqlite_nested_prepared"] += 1
         err = sqlite_parse_error(outer)
